@@ -14,7 +14,7 @@ import (
 func init() {
 	register(&Prop{
 		ID:         "C16",
-		Decided:    "(1) the table key encoder is uniquely decodable for composite keys, separates strings from numbers by type tags, and normalises every Go numeric kind to one tag (keyenc); (2) MemoryTableSource.index is accessed only under its RWMutex (writes exclusively), tableStore.sources under its mutex; (3) enrichJoin writes only the fresh working copy (ownmap, shared with C20); (4) the JoinType literals written by parseJoin are exactly the ones enrichJoin distinguishes, the drop return is reachable only on the not-matched, not-LEFT arm, and a matched row is always attached; (4b) the table alias is defaulted to the table name before it is used to strip qualifiers from the ON columns; (5) the lookup key is built from OnPairs in order (StreamField), the same order JoinKeyFields reports for the index (TableField). Also: every use of a table source in package stream (TableSource.Lookup, MemoryTableSource.Upsert/Delete) takes its receiver from tableStore.get in the same activation, never from a field, package variable, atomic box or map that remembers a source across rows (flow/table-source-resolved-per-use). Also: in enrichJoin's loop over the JOINs no branch condition and no value written into the working row derives from a value carried over from the previous iteration (flow/join-result-per-iteration): a JOIN whose lookup is skipped cannot re-use the previous table's match.",
+		Decided:    "(1) the table key encoder is uniquely decodable for composite keys, separates strings from numbers by type tags, and normalises every Go numeric kind to one tag (keyenc); (2) MemoryTableSource.index is accessed only under its RWMutex (writes exclusively), tableStore.sources under its mutex; (3) enrichJoin writes only the fresh working copy (ownmap, shared with C20); (4) the JoinType literals written by parseJoin are exactly the ones enrichJoin distinguishes, the drop return is reachable only on the not-matched, not-LEFT arm, and a matched row is always attached; (4b) the table alias is defaulted to the table name before it is used to strip qualifiers from the ON columns; (5) the lookup key is built from OnPairs in order (StreamField), the same order JoinKeyFields reports for the index (TableField). Also: every use of a table source in package stream (TableSource.Lookup, MemoryTableSource.Upsert/Delete) takes its receiver from tableStore.get in the same activation, never from a field, package variable, atomic box or map that remembers a source across rows (flow/table-source-resolved-per-use). Also: in enrichJoin's loop over the JOINs no branch condition and no value written into the working row derives from a value carried over from the previous iteration (flow/join-result-per-iteration): a JOIN whose lookup is skipped cannot re-use the previous table's match. Also: TableSource.Lookup is unreachable on a path on which a key component was found NULL (flow/null-key-never-looked-up): the engine, not each source, guarantees that a NULL key matches nothing.",
 		NotDecided: "read-your-writes across goroutines beyond the lock clause, column projection under aliases, WHERE/GROUP BY over joined columns.",
 		Run:        runC16,
 	})
